@@ -17,6 +17,8 @@ TRUSTED = [
     "real code on every case (a .qpr/.info file counts as complete only if it decodes to exactly the expected value)",
 ]
 ASSUME = [
+    "the store's mapping at resume time is the mapping the query was first parsed with; request IDs contain no '.' or '/' "
+    "(the store cannot handle them: fracNameFromQPRPath, path.Join)",
     "aggregation group tokens are valid UTF-8 (otherwise the JSON key codec collides: known finding resume/invalid-utf8-group)",
     "at most 8096 samples per aggregation bin (reservoir replacement is order dependent); float values are multiples of 1/16 "
     "with sums below 2^53 (exact arithmetic)",
@@ -24,7 +26,10 @@ ASSUME = [
     "fractions that existed at start are not removed and do not change before the request completes (new fractions may "
     "appear: ingest/rotation after a restart is part of the crash chains); one request at a time (Parallelism 1)",
 ]
-RULE = ("worlds = corpus in 0..4 real fractions (sealed/active, some IDs stored in two fractions, JSON-hostile group tokens, "
+RULE = ("request IDs as uuid.New() makes them with every final hex digit 0-f over consecutive worlds, plus client-chosen IDs ending in "
+        "i/n/o, ending in or containing 'info', ending in 'fff'; text-mapped field t (one token per word) and path-mapped field p next to "
+        "the keyword fields, 3 of 5 queries with several words on the text field (meaning depends on the store's mapping). "
+        "worlds = corpus in 0..4 real fractions (sealed/active, some IDs stored in two fractions, JSON-hostile group tokens, "
         "exact decimal values) x query x histogram interval x 0..2 aggregations x order x limit; per world the uninterrupted "
         "run (operation sequence, acknowledgement position, async = sync) and restarts on crash states: after k operations, "
         "a write cut short, power loss, second crashes inside the resumed run, and restarts before which new matching documents "
